@@ -55,6 +55,10 @@ def case_run(draw: Any, tier: str = "quick") -> dict[str, Any]:
     pruner = draw(programs.pruner_spec([k for k in programs.PRUNER_KINDS if not (k == "hyperband" and sampler["kind"] in ("nsgaii", "nsgaii_sbx", "nsgaiii"))]))
     n = draw(st.integers(6, 24 if sampler["kind"] != "gp" else 10))
     variants = draw(st.lists(st.sampled_from(VARIANT_KINDS), min_size=3, max_size=4, unique=True))
+    # samplers that build search spaces / groups / populations from sets and dicts are the ones a
+    # hash-seed dependence would hide in: they always get the other-process variant
+    if sampler["kind"] in ("tpe_group", "tpe_mv", "nsgaii", "nsgaii_sbx", "nsgaiii", "brute") and "process" not in variants:
+        variants = variants[:3] + ["process"]
     return {
         "program": prog,
         "sampler": sampler,
@@ -240,5 +244,5 @@ def run_case(case: dict[str, Any], ctx: Ctx) -> None:
 
 
 CHECKS = [
-    Check("run", lambda tier: case_run(tier), run_case, {"quick": 160, "thorough": 5000}, budget_s={"quick": 150, "thorough": 2400}, shrink=False),
+    Check("run", lambda tier: case_run(tier), run_case, {"quick": 320, "thorough": 6000}, budget_s={"quick": 150, "thorough": 2400}, shrink=False),
 ]
